@@ -83,8 +83,11 @@ pub enum AtomKind {
     /// a member called like a property of another dialect's arrays and strings, `@.f.length == 2`: true only
     /// for an object that has such a member - an array of two elements or a string of two characters has none
     ForeignProperty,
+    /// existence below a member that other atoms go through as well, `@.s.x0` next to `@.s.x2`: the child may
+    /// be a wrapper with the single member `s`
+    ExistsShared,
 }
-pub const KINDS: [AtomKind; 16] = [
+pub const KINDS: [AtomKind; 17] = [
     AtomKind::Exists,
     AtomKind::CmpEq,
     AtomKind::Match,
@@ -101,6 +104,7 @@ pub const KINDS: [AtomKind; 16] = [
     AtomKind::NestedThenMore,
     AtomKind::NestedTwice,
     AtomKind::ForeignProperty,
+    AtomKind::ExistsShared,
 ];
 
 fn nm(s: &str) -> StrLit {
@@ -215,6 +219,7 @@ fn atom_expr(kind: AtomKind, i: usize) -> (Expr, bool) {
             ),
             true,
         ),
+        AtomKind::ExistsShared => (Expr::Test(false, Box::new(TestE::Q(rel(vec![nseg("s"), nseg(&format!("x{}", i))])))), true),
         AtomKind::ForeignProperty => (
             Expr::Cmp(
                 Box::new(Cmpable::Sing(Sing { abs: false, steps: vec![SingStep::Name(nm(&format!("f{}", i)), true), SingStep::Name(nm(["length", "size", "count"][i % 3]), true)] })),
@@ -431,6 +436,15 @@ fn atom_members(src: &mut Src, kind: AtomKind, i: usize, truth: bool, out: &mut 
                 }
             }
         }
+        AtomKind::ExistsShared => {
+            // (members called `s` are merged into one object when the child is put together)
+            let hollow = src.pick(&[J::Null, J::Bool(false), J::Int(0), J::Str("".into()), J::Arr(vec![]), J::Obj(vec![])]).clone();
+            if truth {
+                out.push(("s".to_string(), J::Obj(vec![(format!("x{}", i), hollow)])));
+            } else if src.bool() {
+                out.push(("s".to_string(), J::Obj(vec![])));
+            }
+        }
         AtomKind::ForeignProperty => {
             let f = format!("f{}", i);
             let prop = ["length", "size", "count"][i % 3];
@@ -610,6 +624,7 @@ fn check_formula_on(f: &F, more: &[F], k: usize, kinds: &[AtomKind], src: &mut S
         }
     }
     // one child per valuation of the non-constant atoms
+    let with_id = true;
     let mut children: Vec<(u32, J)> = vec![];
     for val in 0..(1u32 << k) {
         if (0..k).any(|i| kinds[i] == AtomKind::RootFlag && ((val >> i) & 1 == 1) != flag_truth[i]) {
@@ -619,7 +634,23 @@ fn check_formula_on(f: &F, more: &[F], k: usize, kinds: &[AtomKind], src: &mut S
         for i in 0..k {
             atom_members(src, kinds[i], i, (val >> i) & 1 == 1, &mut m);
         }
-        m.push(("id".to_string(), J::Int(val as i64)));
+        // atoms that share the member `s` contribute to one object
+        let mut merged: Vec<(String, J)> = vec![];
+        for (k2, v2) in m {
+            if k2 == "s" {
+                if let Some((_, J::Obj(prev))) = merged.iter_mut().find(|(k3, _)| k3 == "s") {
+                    if let J::Obj(more) = v2 {
+                        prev.extend(more);
+                    }
+                    continue;
+                }
+            }
+            merged.push((k2, v2));
+        }
+        let mut m = merged;
+        if with_id {
+            m.push(("id".to_string(), J::Int(val as i64)));
+        }
         children.push((val, J::Obj(m)));
     }
     // a few children that are not objects at all (numbers, strings, null, arrays): every `@.x` selects
@@ -819,7 +850,7 @@ fn gen_formula(src: &mut Src, k: usize, depth: usize) -> F {
 
 fn random_formulas(src: &mut Src, obs: &mut Obs) -> Res {
     let k = 1 + src.below(4);
-    let kinds: Vec<AtomKind> = (0..k).map(|_| *src.pick(&KINDS)).collect();
+    let kinds: Vec<AtomKind> = if src.chance(1, 10) { vec![AtomKind::ExistsShared; k] } else { (0..k).map(|_| *src.pick(&KINDS)).collect() };
     let f = if src.chance(1, 8) {
         // a long flat chain: 5-40 operands over the same few atoms, `&&` and `||` mixed, some negated
         obs.label("long-chain(5-40 operands)");
@@ -845,7 +876,7 @@ fn random_formulas(src: &mut Src, obs: &mut Obs) -> Res {
 /// the children kept by g (a child kept by both appears twice), not the children kept by `f || g`
 fn random_several_filters(src: &mut Src, obs: &mut Obs) -> Res {
     let k = 1 + src.below(3);
-    let kinds: Vec<AtomKind> = (0..k).map(|_| *src.pick(&KINDS)).collect();
+    let kinds: Vec<AtomKind> = if src.chance(1, 10) { vec![AtomKind::ExistsShared; k] } else { (0..k).map(|_| *src.pick(&KINDS)).collect() };
     let f = gen_formula(src, k, 2);
     let n_more = 1 + src.below(2);
     let more: Vec<F> = (0..n_more).map(|_| if src.chance(1, 5) { f.clone() } else { gen_formula(src, k, 2) }).collect();
